@@ -49,6 +49,7 @@ type Obligation struct {
 	Cover    bool              // vacuity check: goal must be SAT (reachable)
 	ModelQ   []string          // terms to evaluate when a model is found
 	ModelTag map[string]string // term -> role label for replay
+	Alts     []string          // vacuity: alternative goals, any one of which suffices
 	Clause   ast.Expr          // the contract clause (conjunct) behind a post obligation, for replay
 	ClausePkg string
 	idx      int               // position in script
@@ -711,6 +712,21 @@ func obFile(dir string, ob *Obligation) string {
 }
 
 func solveOb(ob *Obligation, o SolveOpts) {
+	if ob.Cover && len(ob.Alts) > 0 {
+		// vacuity: it is enough that ONE of the alternatives (e.g. one return) is reachable; try them
+		// one at a time, simplest first, instead of their disjunction
+		full := ob.Goal
+		for _, alt := range ob.Alts {
+			ob.Goal = alt
+			r := solveText(ob.script.render(ob, nil, nil), obFile(o.Dir, ob), o)
+			ob.Status, ob.Solver, ob.Seconds, ob.Raw = r.status, r.solver, r.secs, r.out
+			if r.status == "sat" {
+				break
+			}
+		}
+		ob.Goal = full
+		return
+	}
 	text := ob.script.render(ob, nil, nil)
 	r := solveText(text, obFile(o.Dir, ob), o)
 	ob.Status, ob.Solver, ob.Seconds, ob.Raw = r.status, r.solver, r.secs, r.out
